@@ -115,6 +115,12 @@ def apply(st, op):
             return None
         sdef = model.filters[si].copy_def()
         rc = E.classify(lambda: fs.replacefilter(o, content, newn, desc))
+        if desc is not None and "\n" in desc:
+            # a description of several lines cannot be rendered as one comment, so the rendering of such a set says nothing;
+            # but if the call is *refused* (raises), flag, predicate and rendering must still agree for every filter
+            if rc[0].startswith("raised:"):
+                return "agree-only"
+            return "accepted"
         mc = model.replace(uname(o), sdef, uname(newn) if newn is not None else None, desc)
     elif kind == "remove":
         rc = E.classify(lambda: fs.removefilter(op[1]))
@@ -138,6 +144,25 @@ def observe(fs):
     names = [E.fattr(f, "name") for f in fs.filters]
     flags = [bool(E.fattr(f, "enabled")) for f in fs.filters]
     return names, flags
+
+
+def check_agreement(fs, label):
+    """Flag, is_filter_disabled and the rendering agree for every filter (nothing else is asked)."""
+    try:
+        tops = E.top_filters(str(fs))
+        names, flags = observe(fs)
+        if len(tops) != len(names):
+            return Failure(PROP, "C12.agree", "%s: %d filters but %d top-level commands in the rendering" % (label, len(names), len(tops)), {})
+        for i, n in enumerate(names):
+            pred = not fs.is_filter_disabled(n)
+            wrapped = E.is_wrapped(tops[i])
+            if not (flags[i] == pred == (not wrapped)):
+                return Failure(PROP, "C12.agree", "%s: filter %r: enabled flag=%r, is_filter_disabled=%r, rendered wrapped in 'if false'=%r" % (
+                    label, n, flags[i], not pred, wrapped), {})
+            fs.getfilter(n)
+    except Exception as e:
+        return Failure(PROP, "C12.agree", "%s: the set can no longer be rendered and questioned: %s: %s" % (label, type(e).__name__, e), {})
+    return None
 
 
 def check_state(st, op, before_text, rc, mc):
@@ -220,7 +245,7 @@ def draw_op(wl, mix):
     if kind == "replace":
         src = NAMES[wl.int("src", len(NAMES))]
         newn = [None, None, NAMES[wl.int("name2", len(NAMES))]][wl.int("hasnew", 3)]
-        desc = [None, "a description", ""][wl.int("desc", 3)]
+        desc = [None, "a description", "", "two\nlines"][wl.weighted("desc", [3, 3, 3, 1])]
         return ("replace", n, src, newn, desc)
     if kind == "move":
         return ("move", n, ["up", "down"][wl.int("dir", 2)])
@@ -258,6 +283,9 @@ def run(ch, config, res):
         if r is None:
             continue
         if r == "accepted":
+            break
+        if r == "agree-only":
+            failure = check_agreement(st.fs, "after %r (refused with an exception)" % (op,))
             break
         rc, mc, exc = r
         if isinstance(exc, str):
